@@ -40,7 +40,7 @@ REQUIRED = {"all": ["layouts", "clean_parsed", "corruptions_rejected", "corrupti
 NLAYOUT = {"quick": 600, "thorough": 6000}
 NCORR = {"quick": 30, "thorough": 60}
 PANEL = list("*>#-_.,;:!?@$%&/\\|()[]{}<=+~^'\"`") + list("BJOUXZbjouxz") + list("aceg") + ["\t", "\x0c", "\x00", "\x7f", "\n",
-         "\r", " ", "0", "7", "é", "Ж", "Ａ", " ", "①"]
+         "\r", " ", "0", "7", "é", "Ж", "Ａ", " ", "①", "\u0663", "\u0969", "\uff13", "\u0e53", "\u00b2", "\u06f7", "\U0001d7d1"]
 ERR = "<<ERROR>>"
 UNSPEC = "<<UNSPECIFIED>>"
 
@@ -140,7 +140,7 @@ def build_layout(rng, seq):
         lines.append("  %d  " % len(seq))
     head = rng.choice(["none", "top", "top", "after_blank"])
     if head != "none":
-        hlen = rng.choice([0, 0, 1, rng.randint(0, 40), rng.randint(0, 40)])
+        hlen = rng.choice([0, 0, 1, rng.randint(0, 40), rng.randint(0, 40), rng.randint(0, 40), rng.choice([1020, 1023, 1024, 1100, 2500, 9000])])
         htxt = ">" + "".join(rng.choice("abcXYZ |_-.:*>0123456789ACDEFGHIKLMNPQRSTVWY") for _ in range(hlen))
         if rng.random() < 0.1:
             htxt = ">" + " " * rng.randint(1, 3)          # a header that is only the marker (and blanks)
